@@ -391,3 +391,36 @@ def helper_ops(E, which):
     else:
         a, b = np.array([[1, 1], [0, 1]]), np.array([[0, 1], [0, 0]])
         run_op(E, "tt_union_rows", [a, b], lambda: U.tt_union_rows(a, b))
+
+
+# ------------------------------------------------------------------------------------------ algorithm entry points
+
+@ob("C05", params=[dict(alg="gcp_opt", init="ktensor"), dict(alg="gcp_opt", init="list"), dict(alg="tucker_als", init="list")],
+    validate=False, env_stub=True, max_paths=2000, wall_s=300,
+    bounds="algorithm entry points with the numerical back end stubbed (L-BFGS-B: opaque stub; nvecs: contract stub): 2x2 symbolic data, rank-1 symbolic starting "
+           "guess with a non-unit weight; judged: operands unchanged, returned MODEL independent of them (the 'initial guess' output is by design the caller's object; "
+           "cp_als / cp_apr / hosvd: see the 'untouched' goals of C09 / C11 / C10)")
+def algorithm_entry_points(E, alg, init):
+    """the data and the caller's starting guess are unchanged after the call, and the returned objects share no memory with them"""
+    from symx import harness as H
+    X = O.dense(E, "d", (2, 2))
+    if alg == "gcp_opt":
+        from pyttb.gcp import optimizers as opt
+        from pyttb.gcp.fg_setup import Objectives
+        from obligations.C13 import _LbfgsStub
+        if init == "ktensor":
+            from symx import npenv
+            w = E.real("w", positive=True)
+            guess = ttb.ktensor([E.reals(f"U{n}_", (2, 1), positive=True) for n in range(2)], (npenv.obj_array([w]) if E.sym else np.array([w])), copy=False)
+        else:
+            guess = [E.reals(f"U{n}_", (2, 1), positive=True) for n in range(2)]
+        real = opt.fmin_l_bfgs_b
+        opt.fmin_l_bfgs_b = _LbfgsStub(E, "s")
+        try:
+            run_op(E, f"gcp_opt(init={init})", [X, guess], lambda: ttb.gcp_opt(X, 1, Objectives.GAUSSIAN, opt.LBFGSB(maxiter=2), init=guess, printitn=0)[0])
+        finally:
+            opt.fmin_l_bfgs_b = real
+    elif alg == "tucker_als":
+        guess = [E.reals(f"U{n}_", (2, 1)) for n in range(2)]
+        with H.nvecs_stub(E):
+            run_op(E, "tucker_als(init=list)", [X, guess], lambda: ttb.tucker_als(X, [1, 1], maxiters=1, init=guess, printitn=0)[0])
